@@ -94,11 +94,14 @@ type BMCSpec struct {
 	Safe     string   `json:"safe"`     // harness predicate over the shared object: must hold in every state
 	NoDeadlock bool   `json:"no_deadlock"`
 	FinalOK  string   `json:"final"`    // optional predicate that must hold when all threads finished
+	TVOrder  []int    `json:"tv_order"` // translator validation: run the threads sequentially in this order (default 0,1,2,...)
 	Cubes    int      `json:"cubes"`    // cube-and-conquer: case split on the first Cubes scheduler choices (N^Cubes sub-queries per query)
 }
 
 type bmcCtx struct {
 	cellName map[int]string
+	chanName map[int]string
+	structName map[int]string
 	locs    []*bmcLoc
 	byKey   map[string]*bmcLoc
 	edges   []*bmcEdge
@@ -132,6 +135,8 @@ func (x *X) nameCells(root Value) {
 	b := x.bmc
 	if b.cellName == nil {
 		b.cellName = map[int]string{}
+		b.chanName = map[int]string{}
+		b.structName = map[int]string{}
 	}
 	var walk func(l Loc, path string)
 	walk = func(l Loc, path string) {
@@ -140,9 +145,13 @@ func (x *X) nameCells(root Value) {
 			if l.ID != 0 && b.cellName[l.ID] == "" {
 				b.cellName[l.ID] = path
 			}
+			if cr, ok := l.V.(ChanRef); ok && cr.C != nil && b.chanName[cr.C.ID] == "" {
+				b.chanName[cr.C.ID] = path
+			}
 		case *StructLoc:
 			if l.ID != 0 && b.cellName[l.ID] == "" {
 				b.cellName[l.ID] = path
+				b.structName[l.ID] = path
 			}
 			st, _ := l.T.Underlying().(*types.Struct)
 			for i, f := range l.F {
@@ -857,7 +866,21 @@ func (x *X) bmcExploreFrom(setup *ssa.Function, l *bmcLoc) {
 
 var bmcSem = make(chan struct{}, 16)
 
+// BMCTV is the sequential-schedule prediction used for translator validation: the threads
+// run one after the other in Order with the given choice values; Cells/Chans is the final
+// shared state the extracted automata predict.
+type BMCTV struct {
+	Order   []int             `json:"order"`
+	Choices []uint64          `json:"choices"`
+	Cells   map[string]string `json:"cells"` // Go expression -> predicted value ("nil", "&expr" or decimal)
+	Width   map[string]int    `json:"width"` // bit width of scalar cells (values are compared modulo 2^width)
+	Chans   map[string]uint64 `json:"chans"` // Go expression of the channel -> token count
+	Targets []string          `json:"targets"`
+	Result  string            `json:"result"`
+}
+
 type BMCResult struct {
+	TV               *BMCTV `json:"tv,omitempty"`
 	Cubes            int
 	Locations, Edges int
 	Steps            int
@@ -1447,6 +1470,80 @@ func (x *X) BMCCheck(spec BMCSpec, pkg *ssa.Package) *BMCResult {
 			x.S.NUnk++
 			x.St.Inconclusive = append(x.St.Inconclusive, q.name+": solver unknown / time-out")
 		}
+	}
+	if len(x.St.Violations) == 0 && len(x.St.Inconclusive) == 0 {
+		// translator validation input: the state the automata predict for a sequential schedule
+		order := spec.TVOrder
+		if len(order) != m.nthr {
+			order = nil
+			for t := 0; t < m.nthr; t++ {
+				order = append(order, t)
+			}
+		}
+		as := append([]*T{}, m.trans...)
+		as = append(as, allDone(K))
+		for k := 0; k < K; k++ {
+			for j := 1; j < len(order); j++ {
+				for i := 0; i < j; i++ {
+					as = append(as, B.Implies(B.Eq(m.sched[k], B.Const(uint64(order[j]), 8)), B.Eq(m.pc[order[i]][k], B.Const(uint64(m.endID), 16))))
+				}
+			}
+		}
+		var tvWant []*T
+		var choiceVars []*T
+		for t, body := range bodies {
+			st := b.byKey["START:"+body.String()]
+			cv := m.regs[t][0][st.regN[1]]
+			choiceVars = append(choiceVars, cv)
+			tvWant = append(tvWant, cv)
+		}
+		var ids []int
+		for _, id := range cellIDs {
+			if m.written[id] && !strings.Contains(cellLabel(id), "$") {
+				ids = append(ids, id)
+				tvWant = append(tvWant, m.cells[K][id])
+			}
+		}
+		var chIDs []int
+		for id := range b.chanCap {
+			if b.chanName[id] != "" {
+				chIDs = append(chIDs, id)
+			}
+		}
+		sort.Ints(chIDs)
+		for _, id := range chIDs {
+			tvWant = append(tvWant, m.chans[K][id])
+		}
+		r, vals, _ := smt.RunScript("z3-new", smt.OneShotScript("z3-new", B, as, tvWant), len(tvWant), tmo)
+		tv := &BMCTV{Order: order, Cells: map[string]string{}, Width: map[string]int{}, Chans: map[string]uint64{}, Result: r.String()}
+		if r == smt.Sat {
+			for i := range choiceVars {
+				tv.Choices = append(tv.Choices, vals[i])
+			}
+			off := len(choiceVars)
+			for i, id := range ids {
+				v := vals[off+i]
+				if _, isPtr := b.ptrDom[id]; isPtr {
+					if v == 0 {
+						tv.Cells[cellLabel(id)] = "nil"
+					} else {
+						tv.Cells[cellLabel(id)] = "&" + cellLabel(int(v))
+					}
+				} else {
+					tv.Cells[cellLabel(id)] = fmt.Sprint(v)
+					tv.Width[cellLabel(id)] = b.cellW[id]
+				}
+			}
+			off += len(ids)
+			for i, id := range chIDs {
+				tv.Chans[b.chanName[id]] = vals[off+i]
+			}
+			for _, n := range b.structName {
+				tv.Targets = append(tv.Targets, n)
+			}
+			sort.Strings(tv.Targets)
+		}
+		res.TV = tv
 	}
 	return res
 }
